@@ -276,7 +276,7 @@ namespace avel {
 
         #if (defined(AVEL_AVX512VL) && defined(AVEL_AVX512BW)) || defined(AVEL_AVX10_1)
         auto mask = b << N;
-        return mask32x8u{__mmask32((decay(m) & ~mask) | mask)};
+        return mask32x8u{__mmask32((decay(m) & ~(1u << N)) | mask)};
 
         #elif defined(AVEL_AVX2)
         return mask32x8u{_mm256_insert_epi8(decay(m), b ? - 1 : 0, N)};
